@@ -1,13 +1,30 @@
 (* C09 -- Formatting verbs are mutually consistent.
-   Statements only; proofs in Proofs/EngineFacts.v.  Proved so far on the engine
-   model: the engine produces exactly one entry per visible layer (for every tree,
-   flag combination and starting state), and the verbose rendering lists the Go
-   type of every entry, in entry order, on its last line.  "%v = %s = Error()",
-   the layout of each entry and fmt's own verbs are decided on every run by the
-   byte-exact correspondence of %v / %+v and the implementation-side relation
-   (their proof is listed as missing in the evidence). *)
+   Statements only; proofs in Proofs/EngineFacts.v, Proofs/ShortText.v.  Proved on
+   the engine model:
+   - %v (and %s: the engine treats them alike) of any error passed through
+     Formattable is exactly its Error() text, for every tree of every kind whose
+     printed strings are "plain" ([plain_tree]: no newline, non-empty messages,
+     ASCII where the string goes through the escaping layer; hidden errors and
+     elided causes are unconstrained).  For strings with newlines the statement is
+     false in general (the engine drops leading / trailing newlines; the property
+     quantifies over regular text only): those are decided by the correspondence.
+   - exactly one entry per visible layer, for every tree, flag combination and state;
+   - the verbose rendering ends with the Go type of every entry, in entry order.
+   fmt's own verbs (%q %x %X, width, precision, flags) are applied by fmt to that
+   text: not modelled, decided by the implementation-side relation. *)
 From Errv Require Import Base.Str Redact.Markers Redact.Buffer Model.Err Model.Sem Model.Report
-     Proofs.EngineFacts.
+     Proofs.EngineFacts Proofs.ShortText.
+
+Theorem C09_v_s : forall e, plain_tree e = true -> fmt_plain_short e = error_text e.
+Proof. exact fmt_plain_short_is_error_text. Qed.
+Print Assumptions C09_v_s.
+
+(* the class is not vacuous and not trivial: library and foreign layers, sentinels, an OS error *)
+Example C09_v_s_example :
+  plain_tree (Wrap 104%positive (WPrefix (lit "outer")) (Wrap 103%positive (WStack [])
+    (Wrap 102%positive (WHint (lit "any\nhint")) (Wrap 101%positive (WPathError (lit "open") (lit "/tmp/x"))
+      (Leaf 100%positive (LErrno 2%Z)))))) = true.
+Proof. vm_compute. reflexivity. Qed.
 
 Theorem C09_one_entry_per_layer : forall e o d w k st,
   snd (ns_fmt (sem e) o d w k st) = List.length (visit_all e) /\
